@@ -46,6 +46,9 @@ func c15Raw(cs *drv.Case, lens []int, isBinary []bool, spare int, nilWriter bool
 	var w thrift.NocopyWriter
 	if !nilWriter {
 		w = dwr
+		if cs.R.Intn(3) == 0 {
+			w = doubles.DirectWriterV{P: dwr} // a direct writer that is a struct value
+		}
 	}
 	off := 0
 	for i := range lens {
@@ -165,6 +168,31 @@ func monC15(c *drv.Ctx) {
 		cs.Count(true, "huge", lens)
 		cs.C.Obs("sequences with a value of 1 MiB or more", 1)
 	})
+	// (1a') unset (nil) structs with a direct writer attached: the one STOP byte, like the copying path
+	c.Stage("nil-structs-with-direct-writer", 4, true, func(cs *drv.Case) {
+		var codec thrift.FastCodec
+		name := "Base"
+		if cs.Idx%2 == 0 {
+			codec = (*base.Base)(nil)
+		} else {
+			codec, name = (*base.BaseResp)(nil), "BaseResp"
+		}
+		dwr := &doubles.DirectWriter{}
+		var nw thrift.NocopyWriter = dwr
+		if cs.Idx >= 2 {
+			nw = doubles.DirectWriterV{P: dwr}
+		}
+		buf := []byte{0xB7, 0xB7, 0xB7}
+		bl := codec.BLength()
+		n := codec.FastWriteNocopy(buf, nw)
+		cs.Desc = M{"struct": name, "blength": bl, "returned_offset": n, "pieces": len(dwr.Pieces)}
+		if bl != 1 || n != 1 || buf[0] != 0 || buf[1] != 0xB7 || len(dwr.Pieces) != 0 {
+			cs.Fail("nocopy-stream-differs", M{"struct": name, "receiver": "nil"}, M{"message": fmt.Sprintf("unset %s with a direct writer: BLength %d, wrote %d bytes (%x), %d direct pieces; the copying path writes the single STOP byte", name, bl, n, buf, len(dwr.Pieces))})
+			return
+		}
+		cs.Count(true, "nilstruct", cs.Idx)
+		cs.C.Obs("struct cases", 1)
+	})
 	// (1b) ApplicationException through FastWriteNocopy / FastWrite, inside a larger buffer
 	c.Stage("exception", c.Pick(4000, 60000), false, c15ExceptionCase)
 
@@ -278,7 +306,11 @@ func c15StructCase(cs *drv.Case) {
 	}
 	buf := whole[pre:]
 	dwr := &doubles.DirectWriter{}
-	off := codec.FastWriteNocopy(buf, dwr)
+	var nw thrift.NocopyWriter = dwr
+	if r.Intn(3) == 0 {
+		nw = doubles.DirectWriterV{P: dwr}
+	}
+	off := codec.FastWriteNocopy(buf, nw)
 	sum := off
 	for _, p := range dwr.Pieces {
 		sum += len(p)
